@@ -2,6 +2,7 @@ CONSTANTS Seed = 1
  BSet = {1,2,3,8,16}
  FullLen = 8
  StrBS = {1,2}
+ HdrBS = {8,16}
  OutFile = "/tmp/vs/c18.ndjson"
 SPECIFICATION Spec
 VIEW View
